@@ -8,6 +8,11 @@ import Blots.Lemmas.EvalFuel
 -/
 namespace Blots
 
+/-- `NF x`: the call `x` did not run out of fuel (plain syntax for `x.1 ≠ .fuel`) -/
+scoped macro "NF " x:term:max : term => `(Prod.fst $x ≠ Outcome.fuel)
+/-- `ND x`: the call `x` did not end in the depth error -/
+scoped macro "ND " x:term:max : term => `(Prod.fst $x ≠ Outcome.err ErrKind.depth)
+
 /-- `(ok vs, s) ↦ (ok (list vs), s)`, failures unchanged -/
 def wrapList : R (List Value) → R Value
   | (.ok vs, s) => (.ok (.list vs), s)
@@ -207,9 +212,6 @@ def seqFold (call : List Value → ES → R Value) (w : Bool) : Value → List V
 
 section workers
 variable (ops : NumOps)
-
-/-- `NF x`: `x` did not run out of fuel -/
-local macro "NF " x:term:max : term => `(Prod.fst $x ≠ Outcome.fuel)
 
 /-- a `mapCalls` run that does not run out of fuel is the left-to-right pass with `callFn` at
     any fuel at least as large -/
